@@ -198,6 +198,26 @@ CHECKS = {
              "formatter.result callback and scenario hook (also after failing, raising, interrupting steps) sys.stdout/stderr are the "
              "sentinels; root logger level/handlers equal before a scenario and after its teardown; uncaptured kinds pass through in order.",
         note="Trusted: marker bookkeeping in vf/props/c18.py, vf/refmodel.py (which steps run). Writes bypassing sys.stdout are not seen."),
+    "C07": dict(
+        level="exploration", design="DESIGN.md 5/C07",
+        technique="exhaustive enumeration of expression trees (<= 7 nodes) x renderings x complete truth tables over an 8-tag universe "
+                  "+ random larger trees (Hypothesis); own AST evaluator / glob matcher as oracle; print-reparse round trip; "
+                  "{config.tags} substitution through real Configuration objects",
+        text="Every expression tree up to the size bound over literal and wildcard operands, in every rendering (with/without @, "
+             "redundant parentheses, extra blanks, list-of-terms form), is parsed by behave and evaluated on ALL 256 subsets of the tag "
+             "universe (complete truth table, ~18M evaluations per quick run) against an own evaluator; str() and to_string() must "
+             "re-parse to the same table; the {config.tags} placeholder must equal substitution of the configured formula.",
+        note="Trusted: vf/tagref.py (AST evaluator, glob matcher, renderers). Escaped operands are a separate low-weight class."),
+    "C08": dict(
+        level="exploration", design="DESIGN.md 5/C08",
+        technique="exhaustive enumeration of small CNF formulas x all decorations x protocols x complete truth tables + random CNF / v2 / "
+                  "mixed texts (Hypothesis); own CNF and v2 evaluators as oracle",
+        text="All old-style formulas with 1-2 literals in every decoration (-, ~, @, :limit, list and string form, explicit / current / "
+             "configured protocol) and random formulas with up to 3 groups x 3 alternatives are evaluated on all 128 tag subsets under "
+             "V1 and AUTO_DETECT; new-style renderings must keep their v2 meaning under AUTO_DETECT; texts mixing old negation prefixes "
+             "with new operators must raise TagExpressionError.",
+        note="Trusted: own CNF semantics from the docs. Texts that are well-formed in both dialects with different meanings are excluded "
+             "by construction and counted. Known finding F11 (single bare tag:N)."),
 }
 
 PENDING_REASON = "not yet claimed in this revision: the check for this property is still under construction (see DESIGN.md 5)"
